@@ -44,6 +44,10 @@ try:
         diff = sh(["git", "diff", "HEAD", "--", "."]).stdout
         t0 = time.time()
         r = sh(["cargo", "test", "--workspace", "--offline", "--no-fail-fast"])
+        if r.returncode != 0:
+            # the repository has a few timing-based tests that occasionally fail on a loaded machine
+            meta["suite_first_attempt_failed"] = [l for l in r.stdout.splitlines() if l.startswith("test ") and "FAILED" in l][:6]
+            r = sh(["cargo", "test", "--workspace", "--offline", "--no-fail-fast"])
         passed = sum(int(l.split("ok. ")[1].split(" passed")[0]) for l in r.stdout.splitlines() if l.startswith("test result: ok."))
         failed = [l for l in r.stdout.splitlines() if l.startswith("test result: FAILED")]
         meta["suite_with_change"] = {"exit": r.returncode, "passed": passed, "failed_result_lines": failed[:5], "seconds": round(time.time() - t0)}
